@@ -92,7 +92,7 @@ def group_by_until_(
 
                 fire_new_map_entry = False
                 writer = writers.get(key)
-                if not writer:
+                if writer is None:
                     try:
                         writer = subject_mapper_()
                     except Exception as e:
@@ -126,7 +126,7 @@ def group_by_until_(
                     group_disposable.add(sad)
 
                     def expire() -> None:
-                        if writers[key]:
+                        if writers.get(key) is writer:
                             del writers[key]
                             writer.on_completed()
 
